@@ -150,6 +150,8 @@ func checkC11(c *Ctx) {
 	c.Expect("C11-R8", 25)
 	c.Rule("C11-R11", "the escape timer is re-armed only after a Stop whose 'already fired' answer drains the tick (a stale tick expires a half-received character into raw bytes)")
 	c.Expect("C11-R11", 2)
+	c.Rule("C11-R12", "the last bytes of the input are not lost: a read that returns bytes together with an error has its bytes queued (the split 'text, then end of input' is one of the read partitions)")
+	c.Expect("C11-R12", 1)
 	c.Rule("C11-R10", "the decoder is chosen by the locale's codeset: LC_ALL, LC_CTYPE, LANG in that order; only the bare names C and POSIX mean US-ASCII (C.UTF-8 is UTF-8); no codeset means UTF-8")
 	c.Expect("C11-R10", 3)
 	c.Rule("C11-R9", "the key matcher's 'partial' answer accumulates over the key table (paste brackets split across reads are still recognised)")
@@ -177,6 +179,7 @@ func checkC11(c *Ctx) {
 	checkRawInputNotUTF8(c, p, pr, "C11-R6")
 	charsetTableRule(c, p, "C11-R8")
 	checkTimerDiscipline(c, p, "C11-R11")
+	checkReadBytesQueued(c, p, "C11-R12")
 	c.asRule("C17-R4", "C11-R10", func() { c17Charset(c, p) })
 	for _, pi := range inputParsers(p) {
 		if pi.fn.Name() == "parseFunctionKey" {
